@@ -301,6 +301,16 @@ def norm_out(case, out):
     'surfaces as an I/O error' by its oracle on the raw output, C12's 'same error kind under every encoding' by its oracle."""
     if out is not None and out.startswith("err ") and case.split(" ", 1)[0] in ("build", "dump", "threads"):
         return "err"
+    # C15: "a different contig or strand is an error", "constructing a pair from unequal lengths is refused" - which variant
+    # carries the refusal is not stated (the harmless refactor C15-t3 introduces its own variants)
+    cmd = case.split(" ", 1)[0]
+    if out is not None and out.startswith("err ") and cmd in ("clamp", "plift", "ptry"):
+        return "refused" if cmd == "clamp" else "err"
+    # clamp to an interval that does not meet the reference interval is outside C15's quantifier ("any interval ... that meets
+    # the reference interval"): the pinned code panics there, a rewrite may as well return an error.  Inside the quantifier the
+    # C15 oracle demands the exact intersection, so a panic or an error there is still reported.
+    if out == "panic" and cmd == "clamp":
+        return "refused"
     return out
 
 
